@@ -67,7 +67,7 @@ var vocab = [][]string{
 	{"こんにちは", "カタカナ", "ｶﾀｶﾅ", "ラーメン", "한국어", "서울"},
 	{"مرحبا", "سلام", "שלום", "สวัสดี", "नमस्ते"},
 	{"😀", "𝒳𝒴", "👍🏽", "a😀b"},
-	{"�", "x�y", "��", "z​z", "n n"},
+	{"\uFFFD", "x\uFFFDy", "\uFFFD\uFFFD", "z\u200bz", "n\u00a0n"},
 	{"10", "3.14", "2024", "١٢٣", "v1.2"},
 	{"&", "<", ">", "a<b", "\"q\"", "'s", "&amp;", "<mark>", "</mark>", "R&D", "&lt;", "&#39;"},
 	{"user@example.com", "http://x.io/a?b=c&d", "#tag", "@me"},
@@ -115,15 +115,18 @@ func genHL(t *rapid.T, label string) HL {
 }
 
 func genTargetRunes(t *rapid.T, size int, label string) int {
-	switch rapid.IntRange(0, 19).Draw(t, label+"LenKind") {
-	case 0:
+	switch k := rapid.IntRange(0, 39).Draw(t, label+"LenKind"); {
+	case k == 0:
 		return 0
-	case 1, 2, 3:
+	case k <= 5:
 		return rapid.IntRange(1, size).Draw(t, label+"Short")
-	case 4, 5, 6, 7, 8:
+	case k <= 15:
 		return rapid.IntRange(size, 2*size+2).Draw(t, label+"Around")
-	default:
+	case k <= 30 || size >= 20:
 		return rapid.IntRange(2*size, 6*size).Draw(t, label+"Long")
+	default:
+		// small fragment sizes: also texts with room for many matches
+		return rapid.IntRange(6*size, 80).Draw(t, label+"VeryLong")
 	}
 }
 
@@ -197,17 +200,25 @@ func mutateTerm(t *rapid.T, term string) string {
 	return term
 }
 
-func genQuery(t *rapid.T, a *analysis.Analyzer, text string) Query {
-	var toks analysis.TokenStream
-	_ = vlib.Guard("analyze", func() *vlib.Failure { toks = a.Analyze([]byte(text)); return nil })
-	// only tokens whose offsets are usable as a surface form
+func genQuery(t *rapid.T, a *analysis.Analyzer, docs []string) Query {
+	// the query is built from the tokens of the first document that has any
 	var ok analysis.TokenStream
-	for _, tk := range toks {
-		if tk != nil && tk.Start >= 0 && tk.Start < tk.End && tk.End <= len(text) && len(tk.Term) > 0 {
-			ok = append(ok, tk)
+	var text string
+	for _, d := range docs {
+		var toks analysis.TokenStream
+		_ = vlib.Guard("analyze", func() *vlib.Failure { toks = a.Analyze([]byte(d)); return nil })
+		// only tokens whose offsets are usable as a surface form
+		for _, tk := range toks {
+			if tk != nil && tk.Start >= 0 && tk.Start < tk.End && tk.End <= len(d) && len(tk.Term) > 0 {
+				ok = append(ok, tk)
+			}
+		}
+		if len(ok) > 0 {
+			text = d
+			break
 		}
 	}
-	if len(ok) == 0 || rapid.IntRange(0, 24).Draw(t, "matchAll") == 0 {
+	if len(ok) == 0 || rapid.IntRange(0, 29).Draw(t, "matchAll") == 0 {
 		return Query{Kind: "all"}
 	}
 	n := len(ok)
@@ -281,7 +292,7 @@ func genCase(t *rapid.T) Case {
 		}
 		c.Docs = append(c.Docs, genText(t, pool, target, "doc"))
 	}
-	c.Query = genQuery(t, a, c.Docs[0])
+	c.Query = genQuery(t, a, c.Docs)
 	return c
 }
 
@@ -397,7 +408,7 @@ func (cs *caseStats) note(c Case, text []byte, locs []Loc, hl HL, st *hlStats) {
 	flag(len(text) == 0, "empty-text")
 	flag(st.textRunes > hl.Size, "text-longer-than-size")
 	flag(st.textRunes > 0 && st.textRunes <= hl.Size, "text-within-size")
-	flag(strings.Contains(string(text), "�"), "text-with-u+fffd")
+	flag(strings.Contains(string(text), "\uFFFD"), "text-with-u+fffd")
 	flag(strings.ContainsAny(string(text), "<>&'\""), "text-with-html-special")
 	flag(st.overlapLocs, "overlapping-locations")
 	flag(st.touchingLocs, "touching-locations")
@@ -455,29 +466,31 @@ type RawCase struct {
 }
 
 func propRaw(c RawCase, cs *caseStats) *vlib.Failure {
+	return vlib.Watchdog("highlight", 60*time.Second, func() *vlib.Failure { return propRawDirect(c, cs) })
+}
+
+func propRawDirect(c RawCase, cs *caseStats) *vlib.Failure {
 	if cs == nil {
 		cs = &caseStats{}
 	}
 	if cs.classes == nil {
 		cs.classes = map[string]bool{}
 	}
-	return vlib.Watchdog("highlight", 60*time.Second, func() *vlib.Failure {
-		for _, hl := range c.HLs {
-			var st hlStats
-			tlm := tlmOf(c.Locs)
-			locs := snapshotLocs(tlm)
-			f := checkHL(c.Text, locs, tlm, hl, &st)
-			cs.evals++
-			cs.note(Case{Analyzer: "-"}, c.Text, locs, hl, &st)
-			if st.judged && cs.sample != nil {
-				cs.sample["kind"] = "raw"
-			}
-			if f != nil {
-				return f
-			}
+	for _, hl := range c.HLs {
+		var st hlStats
+		tlm := tlmOf(c.Locs)
+		locs := snapshotLocs(tlm)
+		f := checkHL(c.Text, locs, tlm, hl, &st)
+		cs.evals++
+		cs.note(Case{Analyzer: "-"}, c.Text, locs, hl, &st)
+		if st.judged && cs.sample != nil {
+			cs.sample["kind"] = "raw"
 		}
-		return nil
-	})
+		if f != nil {
+			return f
+		}
+	}
+	return nil
 }
 
 func snapBack(text []byte, i int) int {
@@ -521,6 +534,13 @@ func genRaw(t *rapid.T) RawCase {
 	}
 	terms := []string{"t0", "t1", "t2", "東"}
 	prevS, prevE := 0, 0
+	var bounds []int // rune boundaries of a valid text, including len
+	if shape == 2 {
+		for i := range string(c.Text) {
+			bounds = append(bounds, i)
+		}
+		bounds = append(bounds, len(c.Text))
+	}
 	for i := 0; i < n; i++ {
 		term := rapid.SampledFrom(terms).Draw(t, "term")
 		var s, e int
@@ -535,28 +555,37 @@ func genRaw(t *rapid.T) RawCase {
 			s = snapBack(c.Text, rapid.IntRange(0, len(c.Text)).Draw(t, "start"))
 			e = snapBack(c.Text, s+rapid.IntRange(0, 10).Draw(t, "len"))
 		default:
-			if prevE >= len(c.Text) {
+			// token-like: starts and ends (as indices into the rune boundaries) both strictly increasing
+			nb := len(bounds)
+			var si, ei int
+			if i == 0 {
+				si = rapid.IntRange(0, maxInt(0, minInt(nb-2, 6))).Draw(t, "firstStart")
+				if rapid.IntRange(0, 2).Draw(t, "atZero") == 0 {
+					si = 0
+				}
+				ei = si + rapid.IntRange(1, 8).Draw(t, "len")
+			} else {
+				switch rapid.IntRange(0, 3).Draw(t, "gap") {
+				case 0: // overlapping the previous one
+					si = prevS + rapid.IntRange(1, maxInt(1, prevE-prevS-1)).Draw(t, "overlapAt")
+				case 1: // touching
+					si = prevE
+				default:
+					si = prevE + rapid.IntRange(1, 7).Draw(t, "apart")
+				}
+				ei = maxInt(prevE+1, si+1) + rapid.IntRange(0, 6).Draw(t, "len")
+			}
+			if rapid.IntRange(0, 5).Draw(t, "toEnd") == 0 && i == n-1 {
+				ei = nb - 1
+			}
+			if ei > nb-1 {
+				ei = nb - 1
+			}
+			if si >= ei || (i > 0 && (si <= prevS || ei <= prevE)) {
 				continue
 			}
-			// next start: after the previous start; may lie before the previous end (overlap) or at it (touching)
-			lo := prevS
-			if i > 0 {
-				lo = prevS + 1
-			}
-			s = snapBack(c.Text, rapid.IntRange(lo, minInt(len(c.Text)-1, prevE+6)).Draw(t, "start"))
-			for s <= prevS && i > 0 && s < len(c.Text) {
-				_, w := utf8.DecodeRune(c.Text[s:])
-				s += w
-			}
-			e = snapBack(c.Text, maxInt(prevE+1, s+1)+rapid.IntRange(0, 7).Draw(t, "len"))
-			for (e <= prevE || e <= s) && e < len(c.Text) {
-				_, w := utf8.DecodeRune(c.Text[e:])
-				e += w
-			}
-			if s >= e || e <= prevE || (i > 0 && s <= prevS) {
-				continue
-			}
-			prevS, prevE = s, e
+			prevS, prevE = si, ei
+			s, e = bounds[si], bounds[ei]
 		}
 		c.Locs = append(c.Locs, Loc{term, s, e})
 	}
